@@ -13,13 +13,25 @@ package equal
 
 //@ func (g *gen) field(thisField, thatField string, fieldType types.Type) (s string, err error)
 //@ abstract: expr classes=Cmp,Paren,Call
-//@ param thisField: classes=Primary,Star,Amp
-//@ param thatField: sameclass=thisField
+//@ param thisField: classes=Primary,Star,Amp type=fieldType
+//@ param thatField: sameclass=thisField type=fieldType
+//@ emits: expr
+//@ o-operands: thisField:fieldType thatField:fieldType -> bool
+//@ o-pure
+//@ o-ensures: [field] r <==> EqC(fieldType, thisField, thatField)
 
 //@ func (g *gen) genStatement(typ types.Type, this, that string) (err error)
 //@ abstract: stmt returns
-//@ param this: classes=Ident,Star
-//@ param that: sameclass=this
+//@ param this: classes=Ident,Star type=typ
+//@ param that: sameclass=this type=typ
+//@ g-requires: !(class(this)=Star && kind(typ)=Struct)
+//@ emits: stmts
+//@ o-operands: this:typ that:typ -> bool
+//@ o-pure
+//@ o-ensures: [statement] r <==> EqTop(typ, this, that)
+//@ o-loop: when kind(typ)==Slice=yes 1: invariant forall j int :: 0 <= j && j < $i ==> EqC(elem(typ), this[j], that[j])
+//@ o-loop: when kind(typ)==Array=yes 1: invariant forall j int :: 0 <= j && j < $i ==> EqC(elem(typ), this[j], that[j])
+//@ o-loop: when kind(typ)==Map=yes 1: invariant forall k val :: visited(k) ==> k in that && EqC(elem(typ), this[k], that[k])
 
 //@ func (g *gen) genFunc(typs []types.Type) (err error)
 //@ param typs: len=2 identical
@@ -30,6 +42,12 @@ package equal
 //@ o-ensures: [equal] r <==> EqTop(typs0, this, that)
 
 //@ func (g *gen) genCurriedFunc(typ types.Type) (err error)
+//@ emits: decls
+//@ serves: equal len=1 typ=typs[0]
+//@ o-sig: (this $typ) (r func($typ) bool)
+//@ o-pure
+//@ o-closure: cr
+//@ o-closure-ensures: [curried] cr <==> EqTop(typ, this, that)
 
 //@ func (g *gen) Generate(typs []types.Type) (err error)
 //@ param typs: len=1,2 identical
